@@ -175,6 +175,19 @@ Theorem C19_conflict_restart_commutes : forall recheck m ops,
 Proof. exact conflict_restart_commutes. Qed.
 Print Assumptions C19_conflict_restart_commutes.
 
+(* (9) an acknowledged ApplyRaftReqs call was proposed and applied: after a call that answered success every entry of
+       the batch is covered by the recorded position of its cluster (it was filtered as already applied, or proposed,
+       committed and applied); a call that reaches a raft group that is not ready is refused and changes nothing *)
+Theorem C19_ack_implies_applied : forall nd b e tsok,
+  n_pending nd = [] -> snd (step nd (ORpc b)) = ROk -> In (e, tsok) b -> 0 < s_index e ->
+  is_already_applied (r_synced (n_cur (fst (step nd (ORpc b))))) e = true.
+Proof. exact ack_implies_applied. Qed.
+Print Assumptions C19_ack_implies_applied.
+
+Theorem C19_not_ready_is_refused : forall nd b, step nd (ORpcDown b) = (nd, RErr).
+Proof. exact not_ready_is_refused. Qed.
+Print Assumptions C19_not_ready_is_refused.
+
 (* ---------- non-vacuity and the role of the hypotheses ---------- *)
 
 Definition ex_src : list sentry :=
